@@ -14,6 +14,9 @@ if dirty:
 p = ROOT / "baseline_obligations.json"
 base = json.loads(p.read_text()) if p.exists() else {}
 for prop in sys.argv[1:]:
+    r = subprocess.run([str(ROOT / "check"), prop, "--tier", "quick"], capture_output=True, text=True)
+    if r.returncode != 0:
+        sys.exit(f"{prop}: check exits {r.returncode} on the clean tree:\n{r.stdout[-2000:]}")
     ev = json.loads((ROOT / "evidence" / f"{prop}.json").read_text())
     ids = sorted({o["id"] for o in ev["coverage"]["obligations_detail"] if o["verdict"] == "discharged"})
     base[prop] = ids
